@@ -282,6 +282,57 @@ def _assigned_variant(body, rv):
     return None
 
 
+def _deferred_mut_refs(body):
+    """{reference local: place it points to} for `&mut` references whose only uses are being handed to a call,
+    being written through, reborrowed or moved into another such reference.  What they point to can change only at
+    those uses - not where the reference is created (a two-phase borrow `x.set(f(..)?)` creates `&mut x` before the
+    arguments are evaluated)"""
+    cache = getattr(body, "_dmr", None)
+    if cache is not None:
+        return cache
+    tgt = {}
+    for l in range(len(body.locals)):
+        if not str(body.local_ty(l)).startswith("&mut"):
+            continue
+        d = body.single_def(l)
+        if not d or d[1] == R.TERM:
+            continue
+        rv = d[2]
+        if rv["k"] == "ref":
+            tgt[l] = _norm(body, P(rv["place"]))
+        elif rv["k"] == "use" and op_place(rv["op"]) is not None and not op_place(rv["op"])[1]:
+            tgt[l] = ("alias", op_place(rv["op"])[0])
+    for _ in range(4):
+        for l, v in list(tgt.items()):
+            if v[0] == "alias":
+                w = tgt.get(v[1])
+                if w is None:
+                    del tgt[l]
+                elif w[0] != "alias":
+                    tgt[l] = w
+    tgt = {l: v for l, v in tgt.items() if v[0] != "alias"}
+    ok = {}
+
+    def good(l, depth=0):
+        if l in ok:
+            return ok[l]
+        ok[l] = False
+        if l not in tgt or depth > 4:
+            return False
+        for (b, i, node, how) in R.uses_of(body, l):
+            if how in ("arg", "drop", "lhs-base"):
+                continue
+            if i != R.TERM and how in ("operand", "ref") and "rv" in node and not node["lhs"][1] and node["lhs"][0] in tgt and good(node["lhs"][0], depth + 1):
+                continue
+            return False
+        ok[l] = True
+        return True
+
+    res = {l: tgt[l] for l in tgt if good(l)}
+    body._dmr = res
+    return res
+
+
 def _reach_with_fact(prog, body, site_bb, place, bad, cap=60000):
     """Path-sensitive search: can the site be reached with `place` possibly having discriminant `bad`?
     Tracks discriminant facts for every Option/Result place that is tested in the function (so that
@@ -294,6 +345,7 @@ def _reach_with_fact(prog, body, site_bb, place, bad, cap=60000):
     for p in tracked:
         by_local.setdefault(p[0], []).append(p)
     ALL = frozenset([0, 1])
+    dmr = _deferred_mut_refs(body)
     seen = set()
     work = [(0, frozenset())]
     steps = 0
@@ -339,7 +391,7 @@ def _reach_with_fact(prog, body, site_bb, place, bad, cap=60000):
                         facts.pop(p, None)
                 elif len(lhs[1]) < len(p[1]) and tuple(p[1][: len(lhs[1])]) == tuple(lhs[1]):
                     facts.pop(p, None)
-            if rv["k"] in ("ref", "rawptr") and rv.get("mut", True):
+            if rv["k"] in ("ref", "rawptr") and rv.get("mut", True) and not (not s["lhs"][1] and s["lhs"][0] in dmr):
                 rp = P(rv["place"])
                 for p in by_local.get(rp[0], ()):
                     if tuple(p[1][: len(rp[1])]) == tuple(rp[1]) or tuple(rp[1][: len(p[1])]) == tuple(p[1]):
@@ -352,6 +404,17 @@ def _reach_with_fact(prog, body, site_bb, place, bad, cap=60000):
                 return True
             continue
         t = body.term(b)
+        if t["k"] in ("call", "tailcall") and dmr:
+            # a deferred `&mut` reference is handed to a call: what it points to may change now
+            for a_ in t.get("args", []):
+                ap_ = op_place(a_)
+                if ap_ is not None and not ap_[1] and ap_[0] in dmr:
+                    rp = dmr[ap_[0]]
+                    for p in by_local.get(rp[0], ()):
+                        if tuple(p[1][: len(rp[1])]) == tuple(rp[1]) or tuple(rp[1][: len(p[1])]) == tuple(p[1]):
+                            facts.pop(p, None)
+                            for k_ in [k_ for k_, v_ in facts.items() if k_[0] == "alias" and v_ == p]:
+                                del facts[k_]
         if t["k"] == "call" and t.get("dest"):
             d = P(t["dest"])
             for p in by_local.get(d[0], ()):
